@@ -211,4 +211,303 @@ def bodyOfTheta (θ : Theta α) : BodyInertial α := bodyOfPi (piFromTheta θ)
 /-- `theta_from_pseudoinertia(pseudoinertia_from_pi(pi_from_theta(θ)))` -/
 def roundTrip (θ : Theta α) : Option (Theta α) := thetaFromPseudo (pseudoFromPi (piFromTheta θ))
 
+
+/-! ## The spec-write protocol of `_infer_inertial` / `apply_body_theta_inertia` and the compiler's
+    resolution of a body's mass properties
+
+The last clause of C47 ("applying them to a body yields a spec that compiles with the same mass
+properties") is about *which source the compiler uses* for the body's inertial (the explicit
+`<inertial>` fields of the `mjsBody` or the geoms) as a function of `compiler.inertiafromgeom` and of
+which fields are defined, and about what the Python code leaves in the spec.  Modelled here:
+
+* `compileBody` : the mass-property part of `mjCBody::Compile` (src/user/user_objects.cc): the two
+  `fullinertia` consistency errors, `mjuu_fullInertia` (abstract `eig`, may fail), the orientation
+  alternative, `InertiaFromGeom` under `inertiafromgeom == TRUE || (!defined(ipos[0]) && AUTO)` (abstract
+  `geo`: its result over the selected geoms, `none` when no geom with mass is selected; geoms have their
+  mass computed only when `!explicitinertial || inertiafromgeom == TRUE`), "ipos undefined: copy body
+  frame", `boundmass`/`boundinertia` (`std::max`), the negative and the `A + B >= C` checks with
+  `balanceinertia`.
+* `Instr`/`exec`/`run` : the statements of `_infer_inertial` and `apply_body_theta_inertia` that touch the
+  `MjSpec` (compiler option writes, `spec.compile()`, `MjsBody` field writes), as a little program that
+  the check compares token by token with the statements extracted from the Python source
+  (translate/c47_protocol.py), and whose interpretation *is* the model `inferInertial` / `applyTheta`.
+
+"Undefined" (`mjuu_defined(x[0])` false, i.e. a NaN in slot 0) is modelled structurally by `Option`
+(`none` = the NaN-filled array that `mjs_defaultBody` / `np.full(.., nan)` / `iquat[:] = nan` leave), because
+`ℝ` has no NaN.  Core Lean only. -/
+
+/-- `mjtInertiaFromGeom`: `mjINERTIAFROMGEOM_FALSE = 0`, `_TRUE = 1`, `_AUTO = 2`. -/
+inductive IFG where
+  | off | on | auto
+  deriving DecidableEq, Repr
+
+def IFG.code : IFG → Nat
+  | .off => 0 | .on => 1 | .auto => 2
+
+def IFG.ofCode? : Nat → Option IFG
+  | 0 => some .off | 1 => some .on | 2 => some .auto | _ => none
+
+structure V3 (α : Type) where
+  x : α
+  y : α
+  z : α
+
+structure Q4 (α : Type) where
+  w : α
+  x : α
+  y : α
+  z : α
+
+/-- `fullinertia = [xx, yy, zz, xy, xz, yz]` -/
+structure F6 (α : Type) where
+  xx : α
+  yy : α
+  zz : α
+  xy : α
+  xz : α
+  yz : α
+
+/-- the inertial fields of an `mjsBody` -/
+structure SpecBody (α : Type) where
+  explicitinertial : Bool
+  mass : α
+  ipos : Option (V3 α)
+  iquat : Option (Q4 α)
+  inertia : V3 α
+  full : Option (F6 α)
+
+/-- `body_mass`, `body_ipos`, `body_iquat`, `body_inertia` of the compiled model
+    (`iquat = none`: a NaN quaternion was propagated) -/
+structure Compiled (α : Type) where
+  mass : α
+  ipos : V3 α
+  iquat : Option (Q4 α)
+  inertia : V3 α
+
+/-- everything the mass-property part of `mjCBody::Compile` reads that the Python code under test does
+    not write -/
+structure CompileEnv (α : Type) where
+  /-- `InertiaFromGeom` over the geoms of the body that are in `inertiagrouprange` and have mass `> mjEPS`;
+      `none` when there is no such geom (the function then leaves the body untouched) -/
+  geo : Option (Compiled α)
+  /-- `mjuu_fullInertia`: principal frame and moments of a full inertia; `none` = its error
+      "inertia must have positive eigenvalues" -/
+  eig : F6 α → Option (Q4 α × V3 α)
+  /-- `mjuu_normvec(iquat, 4)` -/
+  normq : Q4 α → Q4 α
+  /-- body frame (copied into the inertial frame when `ipos` is undefined) -/
+  bpos : V3 α
+  bquat : Q4 α
+  /-- `ialt.type == mjORIENTATION_QUAT` (the inertial orientation is not given as euler/axisangle/…) -/
+  ialtQuat : Bool
+  /-- the orientation resolved from the alternative when it is not a quaternion -/
+  altq : Q4 α
+  boundmass : α
+  boundinertia : α
+  balance : Bool
+
+inductive CompileErr where
+  | fullAndOrientation   -- "fullinertia and inertial orientation cannot both be specified"
+  | fullAndDiag          -- "fullinertia and diagonal inertia cannot both be specified"
+  | eigFailed            -- "error '…' in fullinertia"
+  | negative             -- "mass and inertia cannot be negative"
+  | triangle             -- "inertia must satisfy A + B >= C; use 'balanceinertia' to fix"
+  | noModel              -- (protocol only) a field is read from `model` before any `spec.compile()`
+  | badOption            -- (protocol only) an `inertiafromgeom` value outside the enum
+  | nestedCall           -- (protocol only) `callInfer` inside `_infer_inertial`
+  deriving DecidableEq, Repr
+
+def CompileErr.token : CompileErr → String
+  | .fullAndOrientation => "fullAndOrientation"
+  | .fullAndDiag => "fullAndDiag"
+  | .eigFailed => "eigFailed"
+  | .negative => "negative"
+  | .triangle => "triangle"
+  | .noModel => "noModel"
+  | .badOption => "badOption"
+  | .nestedCall => "nestedCall"
+
+/-- C truthiness of a `double` (`x != 0`; NaN is truthy) -/
+def truthy (a : α) : Bool := !(beq a (lit 0))
+
+/-- `std::max(a, b)` = `(a < b) ? b : a` -/
+def stdMax (a b : α) : α := if a < b then b else a
+
+/-- the body's inertial after the orientation alternatives and `InertiaFromGeom` -/
+structure RawInertial (α : Type) where
+  mass : α
+  ipos : Option (V3 α)
+  iquat : Option (Q4 α)
+  inertia : V3 α
+
+/-- tail of the mass-property part of `mjCBody::Compile`: "ipos undefined: copy body frame into
+    inertial", the bounds, the negative check and the `A + B >= C` check. -/
+def finishBody (env : CompileEnv α) (r : RawInertial α) : Except CompileErr (Compiled α) :=
+  let pq : V3 α × Option (Q4 α) := match r.ipos with
+    | some p => (p, r.iquat)
+    | none => (env.bpos, some env.bquat)
+  let mass := stdMax r.mass env.boundmass
+  let i0 := stdMax r.inertia.x env.boundinertia
+  let i1 := stdMax r.inertia.y env.boundinertia
+  let i2 := stdMax r.inertia.z env.boundinertia
+  if mass < lit 0 || i0 < lit 0 || i1 < lit 0 || i2 < lit 0 then .error .negative
+  else if i0 + i1 < i2 || i0 + i2 < i1 || i1 + i2 < i0 then
+    if env.balance then
+      let mean := (i0 + i1 + i2) / ofSci 30 true 1
+      .ok { mass := mass, ipos := pq.1, iquat := pq.2, inertia := { x := mean, y := mean, z := mean } }
+    else .error .triangle
+  else .ok { mass := mass, ipos := pq.1, iquat := pq.2, inertia := { x := i0, y := i1, z := i2 } }
+
+/-- does the compiler replace the body's inertial by the geoms' (`InertiaFromGeom` is called)? -/
+def useGeom (ifg : IFG) (b : SpecBody α) : Bool := ifg == .on || (b.ipos.isNone && ifg == .auto)
+
+/-- mass-property part of `mjCBody::Compile` for a non-world body. -/
+def compileBody (env : CompileEnv α) (ifg : IFG) (b : SpecBody α) : Except CompileErr (Compiled α) :=
+  if b.full.isSome && !env.ialtQuat then .error .fullAndOrientation
+  else if b.full.isSome && (truthy b.inertia.x || truthy b.inertia.y || truthy b.inertia.z) then
+    .error .fullAndDiag
+  else
+    -- mjuu_fullInertia overwrites (iquat, inertia) when fullinertia is defined
+    let qd : Option (Option (Q4 α) × V3 α) := match b.full with
+      | some f => (env.eig f).map (fun r => (some r.1, r.2))
+      | none => some (b.iquat.map env.normq, b.inertia)
+    match qd with
+    | none => .error .eigFailed
+    | some (q0, d0) =>
+      let q1 := if env.ialtQuat then q0 else some env.altq
+      -- geoms get a mass only when `!explicitinertial || inertiafromgeom == TRUE`
+      let geo := if !b.explicitinertial || ifg == .on then env.geo else none
+      match useGeom ifg b, geo with
+      | true, some g => finishBody env { mass := g.mass, ipos := some g.ipos, iquat := g.iquat, inertia := g.inertia }
+      | _, _ => finishBody env { mass := b.mass, ipos := b.ipos, iquat := q1, inertia := d0 }
+
+/-! ### the Python side -/
+
+/-- the part of the `MjSpec` the code under test reads or writes, plus the last compiled model -/
+structure SpecState (α : Type) where
+  ifg : IFG
+  body : SpecBody α
+  model : Option (Compiled α)
+
+/-- one spec-touching statement of `_infer_inertial` / `apply_body_theta_inertia` -/
+inductive Instr where
+  | setIfg (code : Nat)      -- spec.compiler.inertiafromgeom = <code>
+  | compile                  -- model = spec.compile()
+  | setExplicit (b : Bool)   -- body.explicitinertial = <b>
+  | fullNaN                  -- body.fullinertia = np.full((6, 1), np.nan)
+  | massFromModel            -- body.mass = model.body(body_name).mass[0]
+  | inertiaFromModel         -- body.inertia = model.body(body_name).inertia
+  | iposFromModel            -- body.ipos = model.body(body_name).ipos
+  | iquatFromModel           -- body.iquat = model.body(body_name).iquat
+  | callInfer                -- body = _infer_inertial(spec, body_name)
+  | massPi                   -- body.mass = pi[0]
+  | iposPi                   -- body.ipos = pi[1:4] / pi[0]
+  | inertiaZero              -- body.inertia[:] = 0.0
+  | iquatNaN                 -- body.iquat[:] = np.nan
+  | fullFromPi               -- body.fullinertia[0..5] = fullinertia[(0,0),(1,1),(2,2),(0,1),(0,2),(1,2)]
+  deriving DecidableEq, Repr
+
+def Instr.token : Instr → String
+  | .setIfg c => s!"setIfg:{c}"
+  | .compile => "compile"
+  | .setExplicit b => if b then "setExplicit:True" else "setExplicit:False"
+  | .fullNaN => "fullNaN"
+  | .massFromModel => "massFromModel"
+  | .inertiaFromModel => "inertiaFromModel"
+  | .iposFromModel => "iposFromModel"
+  | .iquatFromModel => "iquatFromModel"
+  | .callInfer => "callInfer"
+  | .massPi => "massPi"
+  | .iposPi => "iposPi"
+  | .inertiaZero => "inertiaZero"
+  | .iquatNaN => "iquatNaN"
+  | .fullFromPi => "fullFromPi"
+
+/-- the statements of `_infer_inertial`, in source order -/
+def inferProg : List Instr :=
+  [.setIfg 2, .compile, .setExplicit true, .fullNaN, .massFromModel, .inertiaFromModel, .iposFromModel,
+   .iquatFromModel]
+
+/-- the statements of `apply_body_theta_inertia`, in source order -/
+def applyProg : List Instr :=
+  [.callInfer, .massPi, .iposPi, .inertiaZero, .iquatNaN, .fullFromPi]
+
+def fullOfBody (B : BodyInertial α) : F6 α :=
+  { xx := B.fxx, yy := B.fyy, zz := B.fzz, xy := B.fxy, xz := B.fxz, yz := B.fyz }
+
+def withModel (s : SpecState α) (f : Compiled α → SpecBody α) : Except CompileErr (SpecState α) :=
+  match s.model with
+  | some m => .ok { s with body := f m }
+  | none => .error .noModel
+
+/-- effect of one statement (`callee` = what `callInfer` runs; `B` = the numbers
+    `apply_body_theta_inertia` derives from `pi`) -/
+def exec (env : CompileEnv α) (B : BodyInertial α)
+    (callee : SpecState α → Except CompileErr (SpecState α)) :
+    Instr → SpecState α → Except CompileErr (SpecState α)
+  | .setIfg c, s => match IFG.ofCode? c with
+    | some v => .ok { s with ifg := v }
+    | none => .error .badOption
+  | .compile, s => match compileBody env s.ifg s.body with
+    | .ok m => .ok { s with model := some m }
+    | .error e => .error e
+  | .setExplicit b, s => .ok { s with body := { s.body with explicitinertial := b } }
+  | .fullNaN, s => .ok { s with body := { s.body with full := none } }
+  | .massFromModel, s => withModel s (fun m => { s.body with mass := m.mass })
+  | .inertiaFromModel, s => withModel s (fun m => { s.body with inertia := m.inertia })
+  | .iposFromModel, s => withModel s (fun m => { s.body with ipos := some m.ipos })
+  | .iquatFromModel, s => withModel s (fun m => { s.body with iquat := m.iquat })
+  | .callInfer, s => callee s
+  | .massPi, s => .ok { s with body := { s.body with mass := B.mass } }
+  | .iposPi, s =>
+    .ok { s with body := { s.body with ipos := some { x := B.ipos0, y := B.ipos1, z := B.ipos2 } } }
+  | .inertiaZero, s =>
+    .ok { s with body := { s.body with inertia := { x := lit 0, y := lit 0, z := lit 0 } } }
+  | .iquatNaN, s => .ok { s with body := { s.body with iquat := none } }
+  | .fullFromPi, s => .ok { s with body := { s.body with full := some (fullOfBody B) } }
+
+def run (env : CompileEnv α) (B : BodyInertial α)
+    (callee : SpecState α → Except CompileErr (SpecState α)) :
+    List Instr → SpecState α → Except CompileErr (SpecState α)
+  | [], s => .ok s
+  | i :: rest, s => match exec env B callee i s with
+    | .ok s' => run env B callee rest s'
+    | .error e => .error e
+
+/-- `_infer_inertial(spec, body_name)`: the interpretation of `inferProg`.  (`B` is not read by any of
+    its statements.) -/
+def inferInertial (env : CompileEnv α) (B : BodyInertial α) (s : SpecState α) :
+    Except CompileErr (SpecState α) :=
+  run env B (fun _ => .error .nestedCall) inferProg s
+
+/-- `apply_body_theta_inertia(spec, body_name, theta)`: the interpretation of `applyProg` with the
+    numbers of `bodyOfTheta θ`. -/
+def applyTheta (env : CompileEnv α) (s : SpecState α) (θ : Theta α) : Except CompileErr (SpecState α) :=
+  let B := bodyOfTheta θ
+  run env B (inferInertial env B) applyProg s
+
+/-- the inertial fields `apply_body_theta_inertia` leaves in the `MjsBody` -/
+def specOfTheta (θ : Theta α) : SpecBody α :=
+  let B := bodyOfTheta θ
+  { explicitinertial := true, mass := B.mass, ipos := some { x := B.ipos0, y := B.ipos1, z := B.ipos2 },
+    iquat := none, inertia := { x := lit 0, y := lit 0, z := lit 0 }, full := some (fullOfBody B) }
+
+/-- `pi_from_body` on the compiled body: `[mass, mass·ipos, F − (mass·skew(ipos)) @ skew(ipos)]` where
+    `F = inertia_to_fullinertia(iquat, inertia) = R diag(inertia) Rᵀ` is given as a 3×3 matrix. -/
+def piOfCompiled (mass : α) (p : V3 α) (F : Mat3 α) : Pi α :=
+  let m := mass
+  let x := p.x
+  let y := p.y
+  let z := p.z
+  { m := m, h0 := m * x, h1 := m * y, h2 := m * z,
+    I := { m00 := F.m00 - ((m * (-z)) * z + (m * y) * (-y)),
+           m01 := F.m01 - (m * y) * x,
+           m02 := F.m02 - (m * (-z)) * (-x),
+           m10 := F.m10 - (m * (-x)) * (-y),
+           m11 := F.m11 - ((m * z) * (-z) + (m * (-x)) * x),
+           m12 := F.m12 - (m * z) * y,
+           m20 := F.m20 - (m * x) * z,
+           m21 := F.m21 - (m * (-y)) * (-z),
+           m22 := F.m22 - ((m * (-y)) * y + (m * x) * (-x)) } }
+
 end MjProof.LogChol
